@@ -173,3 +173,98 @@ def parser_options_isolated(sx, pname):
             for string, parser in attempts:
                 ok.append(parser == ('parser', n0))         # never the library's default parser
     return sx.And(*ok)
+
+
+# ---------------------------------------------------------------- concrete canaries on the real library
+from spyne import Application, Service, rpc, ComplexModel
+from spyne.model.primitive import Unicode, Integer
+from spyne.model.complex import XmlAttribute
+from spyne.server import ServerBase
+from spyne.context import MethodContext
+
+SEEN = {}
+
+
+class Tagged(ComplexModel):
+    __namespace__ = 'tns'
+    label = XmlAttribute(Unicode)
+    body = Unicode
+
+
+class CanarySvc(Service):
+    @rpc(Unicode, Tagged, _returns=Unicode)
+    def echo(ctx, s, t):
+        SEEN['args'] = (s, None if t is None else (t.label, t.body))
+        return s
+
+
+CAPPS = {}
+ATTACKS = ['internal entity in text', 'internal entity in mixed text', 'entity chain in text', 'internal entity in attribute',
+           'external entity in text', 'external DTD subset entity in attribute', 'parameter entity']
+
+
+@harness('C17', params=[(p, a) for p in sorted(PROTS) for a in ATTACKS], label=lambda p: '%s %s' % p,
+         functions=['spyne.protocol.xml.XmlDocument.create_in_document', 'spyne.protocol.xml.XmlDocument.unicode_from_element',
+                    'spyne.protocol.xml.XmlDocument.complex_from_element', 'spyne.protocol.soap.soap11._parse_xml_string'],
+         bounds={'attacks': 'seven concrete attack documents per protocol through the real parser and deserialiser with default '
+                            'settings (concrete canaries; what libxml2 does is not modelled)'})
+def entity_canaries(sx, p):
+    """with default settings the replacement text of an entity - internal, chained, external, from an external DTD
+    subset - never reaches user code or the response"""
+    pname, attack = p
+    if not sx.symbolic or True:
+        import tempfile, os
+        if pname not in CAPPS:
+            P = PROTS[pname]
+            app = Application([CanarySvc], 'tns', in_protocol=P(), out_protocol=P())
+            CAPPS[pname] = (app, ServerBase(app))
+        app, server = CAPPS[pname]
+        fd, path = tempfile.mkstemp(suffix='.txt')
+        os.write(fd, b'FILE-CANARY-0815')
+        os.close(fd)
+        fd2, dtd = tempfile.mkstemp(suffix='.dtd')
+        os.write(fd2, b'<!ENTITY fromdtd "DTD-CANARY-0815">')
+        os.close(fd2)
+        try:
+            s_el, t_el = '<s>plain</s>', '<t label="l"><body>b</body></t>'
+            if attack == 'internal entity in text':
+                doctype, s_el = '<!DOCTYPE echo [<!ENTITY x "INT-CANARY-0815">]>', '<s>&x;</s>'
+            elif attack == 'internal entity in mixed text':
+                doctype, s_el = '<!DOCTYPE echo [<!ENTITY x "INT-CANARY-0815">]>', '<s>pre&x;post</s>'
+            elif attack == 'entity chain in text':
+                doctype = '<!DOCTYPE echo [<!ENTITY a "INT-CANARY-0815"><!ENTITY b "&a;&a;"><!ENTITY c "&b;&b;">]>'
+                s_el = '<s>x&c;y</s>'
+            elif attack == 'internal entity in attribute':
+                doctype, t_el = '<!DOCTYPE echo [<!ENTITY x "INT-CANARY-0815">]>', '<t label="v&x;"><body>b</body></t>'
+            elif attack == 'external entity in text':
+                doctype, s_el = '<!DOCTYPE echo [<!ENTITY x SYSTEM "file://%s">]>' % path, '<s>a&x;b</s>'
+            elif attack == 'external DTD subset entity in attribute':
+                doctype, t_el = '<!DOCTYPE echo SYSTEM "file://%s">' % dtd, '<t label="v&fromdtd;"><body>b</body></t>'
+            else:
+                doctype = '<!DOCTYPE echo [<!ENTITY %% p SYSTEM "file://%s"> %%p;]>' % dtd
+                s_el = '<s>a&fromdtd;b</s>'
+            inner = '<echo xmlns="tns">%s%s</echo>' % (s_el, t_el)
+            if pname != 'XmlDocument':
+                env = 'http://schemas.xmlsoap.org/soap/envelope/' if pname == 'Soap11' else 'http://www.w3.org/2003/05/soap-envelope'
+                doctype = doctype.replace('DOCTYPE echo', 'DOCTYPE Envelope')
+                inner = '<s:Envelope xmlns:s="%s"><s:Body>%s</s:Body></s:Envelope>' % (env, inner)
+            body = ('<?xml version="1.0"?>' + doctype + inner).encode()
+            SEEN.clear()
+            ctx = MethodContext(server, MethodContext.SERVER)
+            ctx.in_string = [body]
+            ctx, = server.generate_contexts(ctx)
+            if ctx.in_error is None:
+                server.get_in_object(ctx)
+            if ctx.in_error is None:
+                server.get_out_object(ctx)
+            else:
+                ctx.out_error = ctx.in_error
+            server.get_out_string(ctx)
+            out = b''.join(ctx.out_string)
+            seen = repr(SEEN.get('args'))
+            leaks = [c for c in ('INT-CANARY-0815', 'FILE-CANARY-0815', 'DTD-CANARY-0815') if c in seen or c.encode() in out]
+            sx.observe('leaks', leaks)
+            return not leaks
+        finally:
+            os.unlink(path)
+            os.unlink(dtd)
